@@ -120,13 +120,14 @@ def check(ctx: Ctx):
     )
     check_overlaps(ctx)
     check_matcher_metric(ctx)
-    tracking.check_overlap_matcher(ctx, rules=("CONT",))
+    tracking.check_overlap_matcher(ctx, rules=("CONT", "PATHCOUNT"))
     tracking.check_distance_matcher(ctx, rules=("GREEDY", "INDEX", "CUTOFF"))
     tracking.check_main_loop(ctx, rules=("FLOW",))
     tracking.check_track_append(ctx, rules=("NONETEST",))
     ctx.expect("METRIC", 4)
     ctx.expect("STRICT", 1)
     ctx.expect("CONT", 1)
+    ctx.expect("PATHCOUNT", 1)
     ctx.expect("GREEDY", 1)
     ctx.expect("INDEX", 4)
     ctx.expect("CUTOFF", 2)
